@@ -140,7 +140,9 @@ def prun(d, props=None, workers='4'):
         os.makedirs(os.path.join(vf, 'build'), exist_ok=True)
         sh(f'cp -al {VERIF}/build/cache {vf}/build/cache', '/')
         ct = os.path.join(vf, 'kani', 'Cargo.toml')
-        open(ct, 'w').write(open(ct).read().replace('path = "/repo"', f'path = "{wt}"'))
+        toml = open(ct).read().replace('path = "/repo"', f'path = "{wt}"')
+        assert wt in toml
+        open(ct, 'w').write(toml)
         for p in props:
             t0 = time.time()
             rc, out = sh(f'./check {p} --tier quick', vf, timeout=7200, env={'BNV_REPO': wt, 'BNV_WORKERS': workers})
